@@ -130,7 +130,7 @@ def _lib_generated(rng):
     pool = rng.sample(NAME_POOL, len(names))
     mapping = dict(zip(names, pool)) if rng.random() < 0.6 else {}
     prog = rename_vars(prog, mapping)
-    text = render_program(prog)
+    text = render_program(prog, rng.choice(["frac", "frac", "decimal", "minimal"]))
     vs = [mapping.get(n, n) for n in names]
     goals = []
     for _ in range(rng.choice([1, 2, 3])):
